@@ -93,7 +93,18 @@ func (x *c10Exec) path(name string) string {
 	return name
 }
 
+// c10SideTok stands in an expression for the path of a constant side file next to the case's documents.
+const c10SideTok = "SIDE.yaml"
+const c10SideText = "tags: [base]\nn: 1\nsub: {k: v}\n"
+
 func (x *c10Exec) run(expr string, names []string, fl c10Flags, stdin []byte) c10Out {
+	if strings.Contains(expr, c10SideTok) {
+		p := filepath.Join(x.dir, "c10side.yaml")
+		if _, err := os.Stat(p); err != nil {
+			_ = os.WriteFile(p, []byte(c10SideText), 0o644)
+		}
+		expr = strings.ReplaceAll(expr, c10SideTok, p)
+	}
 	x.evals++
 	if x.inproc {
 		o, calls := c10InProc(expr, names, fl)
